@@ -7,6 +7,7 @@
 -/
 import Frrs.Filter
 import Frrs.Proofs.Bytes
+import Frrs.Extracted
 namespace Frrs.C10
 open Frrs
 set_option linter.unusedSimpArgs false
@@ -105,5 +106,24 @@ example : (runBytes {} b!"feature done\ndone").ok = false := by decide +kernel  
 example : (runBytes {} b!"feature done\nblob\nmark :1\ndata 5\ndone\n").ok = false := by decide +kernel  -- `done` inside a cut payload
 example : (runBytes {} b!"feature done\nblob\nmark :1\ndata 5\ndone\ndone\n").ok = true := by decide +kernel
 example : parseDataHeader b!"data 600000000\n" = none := by decide +kernel
+
+/-! ### orchestration layer: obligations over the step table extracted from /repo on this run -/
+open Frrs.Pipe in
+/-- **every ref/HEAD/index/object-mutating step of finalize() comes after both the exporter's and
+    the importer's exit status were checked (and a failed check returns an error)** -/
+theorem finalize_checks_dominate : ChecksDominate Extracted.finalizeEvents = true := by decide +kernel
+
+open Frrs.Pipe in
+/-- hence: in every execution of finalize() that stops at a failed status check, no
+    repository-mutating step has run -/
+theorem failed_finalize_mutates_nothing (k : Nat) (hk : checkedBefore Extracted.finalizeEvents k = false) :
+    ∀ i e, (i, e) ∈ enumFrom 0 (Extracted.finalizeEvents.take k) → e.mutatesRepo = false :=
+  dominated_prefix_pure _ finalize_checks_dominate k hk
+
+open Frrs.Pipe in
+/-- in lib.rs::run, options are validated and the pre-flight runs before anything else; the
+    stream (and with it every rule/id/mailmap file, parsed at the top of stream::run) comes last -/
+theorem run_order : CalledBefore Extracted.runEvents .validateOptions [.preflight, .createBackup, .fetchAllRefs, .migrateOrigin, .streamRun] = true := by
+  decide +kernel
 
 end Frrs.C10
